@@ -11,7 +11,7 @@ pub fn meta() -> Meta {
     Meta {
         id: "C18",
         level: "exploration",
-        rule: "planted-indel families through `ska build` + `ska lo` (CLI, --threads 1..4 chosen per case, hash seeds owned by the shim, -m in {0, 0.1, 0.2, 0.5} and one of five -d / -n settings chosen per case — no sample lacks a locus, so none of them may suppress a record): base sequences whose (k-1)-mers are unique on both strands; k in {11,15,21,31}; 1..3 indels exactly 4k apart; lengths 1..10 complete for a single indel and {1,2,k/2,10} for several; the segment is present in the carriers and absent in the others, so every carrier set (every non-trivial subset for n=3,4,5; single/half/all-but-one for n=6,8) covers both polarities (insertion vs deletion relative to the majority); orientations all-forward / alternating. Oracle for EVERY record of every run: before+REF+after (or its reverse complement) is a substring of exactly the samples genotyped 0 and before+ALT+after of exactly those genotyped 1 ('-' = empty allele; 0/1 counts for both), nobody is genotyped for an allele they lack. For the planted families additionally: every record corresponds to one planted indel with its carriers, no indel is reported twice, and the recall is >= 90% over the whole enumerated family and over every sub-family with at least 16 distinct planted positions: each k, each class {single indel, several indels, indel that can be slid by exactly 1-2 positions, by exactly 3-5 positions = homopolymer run / tandem copies, up to three positions found in the base sequence for each (length, slide) pair of a fixed list}, and k x slidable class; counts and misses are reported. A further class puts twin k-mers on the indel branch (U a V U b V with the planted segment across the junction, five base pairs x three lengths: the carriers alone hold both windows and store one ambiguity code for U.V). A class next to a sequence end: exactly k-1, k and k+2 bases between the planted segment and the start / the end of a 6k-base sequence, lengths 1, 3, k/2. Cases whose derived samples break (k-1)-mer uniqueness are judged for soundness only. Every planted layout is run once more through the dev-profile build of the same source (arithmetic overflow checks on): same verdict required, a panic there is an overflow the release build silently wraps.".into(),
+        rule: "planted-indel families through `ska build` + `ska lo` (CLI, --threads 1..4 chosen per case, hash seeds owned by the shim, -m in {0, 0.1, 0.2, 0.5} and one of five -d / -n settings chosen per case — no sample lacks a locus, so none of them may suppress a record): base sequences whose (k-1)-mers are unique on both strands; k in {11,15,21,31}; 1..3 indels exactly 4k apart; lengths 1..10 complete for a single indel and {1,2,k/2,10} for several; the segment is present in the carriers and absent in the others, so every carrier set (every non-trivial subset for n=3,4,5; single/half/all-but-one for n=6,8) covers both polarities (insertion vs deletion relative to the majority); orientations all-forward / alternating. Oracle for EVERY record of every run: before+REF+after (or its reverse complement) is a substring of exactly the samples genotyped 0 and before+ALT+after of exactly those genotyped 1 ('-' = empty allele; 0/1 counts for both), nobody is genotyped for an allele they lack. For the planted families additionally: every record corresponds to one planted indel with its carriers, no indel is reported twice, and the recall is >= 90% over the whole enumerated family and over every sub-family with at least 16 distinct planted positions: each k, each class {single indel, several indels, indel that can be slid by exactly 1-2 positions, by exactly 3-5 positions = homopolymer run / tandem copies, up to three positions found in the base sequence for each (length, slide) pair of a fixed list}, and k x slidable class; counts and misses are reported. A further class puts twin k-mers on the indel branch (U a V U b V with the planted segment across the junction, five base pairs x three lengths: the carriers alone hold both windows and store one ambiguity code for U.V). Every (k, length) cell on its own: lengths 1..10 at sixteen positions each, three runs per position, 90% recall per cell. A class next to a sequence end: exactly k-1, k and k+2 bases between the planted segment and the start / the end of a 6k-base sequence, lengths 1, 3, k/2. Cases whose derived samples break (k-1)-mer uniqueness are judged for soundness only. Every planted layout is run once more through the dev-profile build of the same source (arithmetic overflow checks on): same verdict required, a panic there is an overflow the release build silently wraps.".into(),
         assumptions: vec!["release-profile arithmetic: a debug build panics on a usize underflow in read_graph.rs for short deletion paths (DESIGN §2)".into(), "hash seeds: declared finite set".into()],
         exhaustive_when_uncapped: true,
     }
@@ -333,6 +333,48 @@ pub fn run(ctx: &Ctx, rep: &mut Report) {
                 }
             }
         }
+        // every (k, length) cell on its own: lengths 1..10 at sixteen positions each (a length that is never reported at
+        // some k must not hide in the overall figure)
+        for len in 1..=10usize {
+            for j in 0..16usize {
+                idx += 1;
+                if !ctx.mine(idx) {
+                    continue;
+                }
+                let p = 2 * k + j * (12 * k / 16) + (len + j) % 3;
+                for (n, ci) in [(3usize, (j + len) % 6), (3, (j + len + 3) % 6), (4, (j * 5 + len) % 14)] {
+                    let cs = carrier_sets(n, false);
+                    let c = IndelCase { k, base: base.clone(), segs: vec![(p, len)], present: vec![cs[ci % cs.len()].clone()], flip: (0..n).map(|i| j % 2 == 1 && i % 2 == 1).collect() };
+                    rep.evaluations += 1;
+                    match check(&c, ctx.seed, &dir) {
+                        Ok((planted, found)) => {
+                            if planted > 0 {
+                                rep.nontrivial += 1;
+                                planted_total += planted as u64;
+                                found_total += found as u64;
+                                rep.corner("length_cells");
+                                for sub in [format!("k={k} length {len}"), format!("k={k}, all classes")] {
+                                    let (kp, kf) = (format!("planted[{sub}]"), format!("reported[{sub}]"));
+                                    let x = rep.extra.get(&kp).and_then(|v| v.as_u64()).unwrap_or(0);
+                                    let y = rep.extra.get(&kf).and_then(|v| v.as_u64()).unwrap_or(0);
+                                    rep.extra.insert(kp, json!(x + planted as u64));
+                                    rep.extra.insert(kf, json!(y + found as u64));
+                                }
+                                if found < planted {
+                                    let km = format!("missed[k={k} segs={:?}]", c.segs);
+                                    let a = rep.extra.get(&km).and_then(|v| v.as_u64()).unwrap_or(0);
+                                    rep.extra.insert(km, json!(a + (planted - found) as u64));
+                                }
+                            } else {
+                                rep.corner("premise_not_met_(soundness_only)");
+                            }
+                        }
+                        Err(e) if e.starts_with("MACHINERY") => rep.machinery(e),
+                        Err(e) => rep.violate(format!("cell k={k} len={len} p={p} present={:?}", c.present), format!("k={k} n={n} indel of {len} bases at {p}: {e}"), c.json(ctx.seed)),
+                    }
+                }
+            }
+        }
         // indels next to a sequence end: exactly k-1, k and k+2 bases between the planted segment and the start / the end of
         // the sequence (k-1: the anchoring (k-1)-mer is the first / last one of the contig)
         for at_start in [true, false] {
@@ -450,6 +492,8 @@ pub fn finish(rep: &mut Report) {
                 }
             } else if sub.ends_with(", all classes") {
                 40
+            } else if sub.contains(" length ") {
+                16 // k x length cells: sixteen positions each
             } else if sub.contains("slidable") {
                 cnt(&format!("max_plans[{sub}]"))
             } else {
